@@ -319,6 +319,9 @@ pub enum Layout {
     EmptyEnd(usize),
     /// Fixed(k) with stored (level 0) blocks
     Stored(usize),
+    /// a first block of the largest size the format allows (65 536 bytes on disk, BSIZE = 65 535:
+    /// one stored deflate block of 65 505 bytes), the rest as `Single`
+    MaxFirst,
     /// Fixed(k) without the trailing EOF marker block
     NoEof(usize),
 }
@@ -333,6 +336,7 @@ impl Layout {
             Layout::EmptyMiddle(k) => format!("empty-middle{k}"),
             Layout::EmptyEnd(k) => format!("empty-end{k}"),
             Layout::Stored(k) => format!("stored{k}"),
+            Layout::MaxFirst => "max-first-block".to_string(),
             Layout::NoEof(k) => format!("no-eof{k}"),
         }
     }
@@ -376,9 +380,29 @@ pub fn bgzf(data: &[u8], bounds: &[usize], layout: &Layout) -> Vec<u8> {
             (v, 6, true)
         }
         Layout::Stored(k) => (fixed(*k), 0, true),
+        Layout::MaxFirst => (fixed(BGZF_MAX_INPUT), 6, true),
         Layout::NoEof(k) => (fixed(*k), 6, false),
     };
     let mut out = Vec::new();
+    if *layout == Layout::MaxFirst && data.len() > 65_505 {
+        let first = &data[..65_505];
+        let len = first.len() as u16;
+        let total = 18 + 5 + first.len() + 8;
+        assert_eq!(total, 65_536);
+        out.extend_from_slice(&[0x1f, 0x8b, 0x08, 0x04, 0, 0, 0, 0, 0x00, 0xff, 0x06, 0x00, 0x42, 0x43, 0x02, 0x00]);
+        out.extend_from_slice(&((total - 1) as u16).to_le_bytes());
+        out.push(0x01); // final stored block
+        out.extend_from_slice(&len.to_le_bytes());
+        out.extend_from_slice(&(!len).to_le_bytes());
+        out.extend_from_slice(first);
+        out.extend_from_slice(&crc32fast::hash(first).to_le_bytes());
+        out.extend_from_slice(&(first.len() as u32).to_le_bytes());
+        for c in data[65_505..].chunks(BGZF_MAX_INPUT) {
+            out.extend_from_slice(&bgzf_block(c, 6));
+        }
+        out.extend_from_slice(&BGZF_EOF);
+        return out;
+    }
     for c in chunks {
         out.extend_from_slice(&bgzf_block(c, level));
     }
